@@ -132,7 +132,7 @@ func run(t task) string {
 			return lex(func() sm { return c%04d.NewSM() }, t.Text)
 		}
 		r := c%04d.Run(t.Toks, t.Limit)
-		return fmt.Sprint(r.OK, r.Panic, r.Errs, r.FirstErr, r.Tree, r.Log)
+		return fmt.Sprint(r.OK, r.Panic, r.Errs, r.FirstErr, r.Expected, r.Tree, r.Log)
 `, i, i, i)
 	}
 	d.WriteString(`	}
@@ -288,6 +288,10 @@ func genCase(rt *rapid.T, nWork int) *Case {
 							w0 = append(w0, 5)
 						}
 					}
+					if ri(rt, 0, 1, "deeplexerr") == 0 {
+						at := ri(rt, 0, len(w0), "deeplexerrat")
+						w0 = append(w0[:at], append([]int{1}, w0[at:]...)...)
+					}
 					ts = append(ts, Task{Pkg: pi, Kind: "parse", Toks: w0, Limit: 2000 + 200*len(w0)})
 					run18deep++
 					continue
@@ -333,6 +337,14 @@ func genCase(rt *rapid.T, nWork int) *Case {
 				}
 				if len(w0) > 40 {
 					w0 = w0[:40]
+				}
+				if ri(rt, 0, 1, "lexerr") == 0 {
+					// ERROR tokens as a lexer reports them for characters no rule accepts, in different
+					// places for different goroutines (the parsers are then in different states)
+					for q, nq := 0, ri(rt, 1, 3, "nlexerr"); q < nq; q++ {
+						at := ri(rt, 0, len(w0), "lexerrat")
+						w0 = append(w0[:at], append([]int{1}, w0[at:]...)...)
+					}
 				}
 				ts = append(ts, Task{Pkg: pi, Kind: "parse", Toks: w0, Limit: 2000 + 200*len(w0)})
 			}
